@@ -55,7 +55,13 @@ func genJunk(t *rapid.T) string {
 
 // genSecret draws one non-empty secret.
 func genSecret(t *rapid.T) []byte {
-	switch k := rapid.IntRange(0, 19).Draw(t, "secretkind"); {
+	switch k := rapid.IntRange(0, 22).Draw(t, "secretkind"); {
+	case k >= 20: // the WHOLE text has a shape code might take for something other than a secret: a reference,
+		// an escaped reference, a quoted or bracketed value, a scheme-prefixed value, an authorization value
+		w := rapid.SampledFrom([][2]string{{"${", "}"}, {"${env:", "}"}, {"${file:", "}"}, {"$${", "}"}, {"$", ""}, {"\"", "\""}, {"'", "'"},
+			{"[", "]"}, {"{", "}"}, {"<", ">"}, {"env:", ""}, {"file:", ""}, {"base64:", ""}, {"Bearer ", ""}, {"Basic ", ""}, {"http://", ""},
+			{"", "\n"}, {"#", ""}, {"!!str ", ""}, {"", ":"}, {"- ", ""}}).Draw(t, "wrap")
+		return []byte(w[0] + genSentinel(t) + w[1])
 	case k < 10: // junk + sentinel + junk
 		return []byte(genJunk(t) + genSentinel(t) + genJunk(t))
 	case k < 11: // exactly the marker
